@@ -1,619 +1,145 @@
 """C06  Tree-sample summaries are independent of partitioning, order and scheduling.
 
-Two workloads, both judged against the *serial* summary of the same sample:
+Two workloads, both judged against the *serial* summary of the same sample (differential: exactness of the serial
+summary is C05's business):
 
- library   random samples ("posterior-like": NNI walks around a base tree) are split into 1-6 sub-collections, some
-           empty, each a TreeArray built with explicit or implicit rooting; the parts are merged in every / a random
-           arrival order with update / extend / += / +, or the trees are inserted at random positions.  Hooks on
-           TreeArray.update/extend/__iadd__/__add__/add_tree log (op, sizes, rootings); after every hooked call the
-           alignment invariant is asserted (the four per-tree lists equally long, total_trees_counted == len,
-           sum_of_tree_weights == sum of weights); at the end every per-tree query is run and the canonical summary
-           (split counts, frequencies, per-split multisets of edge lengths / node ages, consensus topology + supports,
-           maximum credibility score, MCCT topology when the maximiser is unique) is compared with the serial one.
+ library   (vf.props._c06_lib)  one case = one sample x one configuration (incl. the constructor-only age settings
+           is_force_max_age / taxon_label_age_map / ultrametricity_precision) x one query vector (consensus threshold
+           None .. 1.0, edge-length policy, summarize or not) x k sub-collections (some empty, explicit or implicit
+           rooting) built ONCE through random construction routes and re-used by several HISTORIES.  A history
+           interleaves merges in an arrival order (update / extend / += / + with the part on either side; one
+           operator per history or a random one per step; results of a merge merged again; a part arriving twice;
+           a += a), tree-level operations after merges (add_tree / append / insert at a position / add_trees) and
+           warm queries between arrivals.  The harness tracks the expected tree sequence of every collection.
+           Judged: the full public summary (split counts, frequencies, per-split multisets of edge lengths / node
+           ages, consensus topology + supports + lengths/ages set on it, maximum credibility scores, MCCT / MSCT
+           topology when the maximiser is unique, MCCT supports and - when one tree is the maximiser - lengths,
+           topology frequencies) equals the serial one; every per-tree query at index i answers for the tree the
+           history put there (stored rows, restore_tree topology + lengths, scores, arg-max index); merging never
+           raises; a tree can be added after any merge.
+           Engineering clauses (consequences of the statement on the state the property anchors, reported under
+           their own keys): after every hooked merge / add_tree the four per-tree lists are equally long AND row-wise
+           the concatenation of target and source, total_trees_counted == len, sum_of_tree_weights == sum of the
+           weights, sizes add up, '+' returns a new collection (documented), a merged source answers as before
+           (public state) so that it can be merged again.
 
- sumtrees  real files, real worker processes (vf.props._c06_driver): injected delays before a worker touches the queue
-           and before it reports (the two existing suspension points), plus one injected fault - a spurious
-           queue.Empty from get_nowait, which multiprocessing.Queue may legitimately produce - enumerate schedules:
-           which worker reads which file, which reports first, idle workers first/last.  The recorded arrival log is
-           checked offline (every file read exactly once, sum of partial sizes == number of trees, every worker
-           reported, no merge raised) and the parallel summary (bipartition table + summary tree with supports) must
-           equal the serial one.  Wall clock never decides; the arrival log does.
+ sumtrees  (vf.props._c06_st, vf.props._c06_driver)  real files, real worker processes.  The library's protocol is
+           blocking work_queue.get() + one None sentinel per worker + one results_queue.put per worker; the driver
+           enumerates schedules AT those suspension points: the order in which the get() calls are served (= which
+           worker reads which file, who is left with a sentinel only) and the order of the put() calls (= arrival
+           order), plus natural runs biased by delays and the regression fault 'a polling get raises queue.Empty'.
+           Option vector per case: burn-in (also one that swallows whole sources), weighted trees, node ages, tip
+           dates, edge-length policy, consensus threshold, summary target, quiet / progress-logging reader branch,
+           NEXUS / Newick, a source without trees, -m N (N from 1 to more than the files) and -M.
+           The recorded arrival log is checked offline (every file read exactly once, no tree lost after burn-in, no
+           merge raised) and everything the parallel run reports (bipartition table, per-split multisets of lengths and
+           ages, topology frequencies, summary tree with every annotation) must equal the serial run; both runs
+           accept or both reject the input.  Wall clock never decides; the arrival log does.
 
-Compatible collections = same namespace, same ignore/weight flags, rooting equal or undefined because empty."""
-import itertools
-import json
-import os
+Compatible collections = same namespace, same ignore/weight/age settings, rooting equal or undefined because empty."""
 import random
-import shutil
-import subprocess
-import sys
-import tempfile
 
-from .. import ref, gen, bridge, core
-from ..mon.hooks import Hooks
+from ._c06_lib import run_library, STYLES
+from ._c06_st import run_sumtrees, SCHEDULES
 
 PROP = "C06"
-LEVEL_TEXT = 'Fault/schedule enumeration: (a) library level - every arrival order (<= 3 parts) or sampled orders of partitions incl. empty parts x 4 merge operators x explicit/implicit rooting, alignment invariant after every hooked merge, sources unchanged, summary equal to the serial one; (b) real multi-process SumTrees runs under a fixed dozen (quick) of per-worker delay vectors at the two existing suspension points plus an injected spurious queue.Empty, offline check of the recorded arrival log (every file exactly once, no loss, every worker reported) and equality of the parallel and serial summaries. Evidence lists the distinct (files-per-worker, arrival order) signatures actually observed.'
-LEVEL_NOTE = 'Trusted: the serial summary as baseline (its exactness is C05); delays only before queue get / result put; OS scheduler decides the rest - the arrival log, not wall clock, decides the verdict.'
+LEVEL_TEXT = ('Fault/schedule enumeration: (a) library level - histories over a pool of sub-collections (incl. empty ones, explicit/implicit rooting, '
+              '8 construction routes) re-used across arrival orders: every order (<= 3 parts) or sampled orders x {update, extend, +=, +} pure or mixed per step, '
+              'part on the left of +, merge results merged again, a part arriving twice, a += a, trees added/inserted after merges, warm queries between '
+              'arrivals; constructor-only age settings, weights incl. 0/None, missing lengths, differing leaf sets, consensus thresholds None..1.0; after '
+              'every hooked merge the per-tree lists are checked in length and row-wise; full public summary and every per-tree query (by index) equal to the '
+              'serial collection; (b) real multi-process SumTrees runs: the order of the served work_queue.get() calls and of the results_queue.put() calls '
+              'is enumerated through turn-taking gates at the two suspension points of the sentinel protocol (which worker reads which file, idle workers '
+              'reporting first / in the middle / last), plus natural delayed runs and a spurious queue.Empty for polling readers; option vectors (burn-in, '
+              'weights, node ages, tip dates, edge policies, thresholds, targets, logging reader, Newick, source without trees, -m 1..N, -M); offline check '
+              'of the arrival log and equality of everything the parallel and the serial run report. Evidence lists the distinct (files-per-worker, '
+              'arrival order) signatures observed and how many enumerated schedules were realised exactly.')
+LEVEL_NOTE = ('Trusted: the serial summary as baseline (its exactness is C05); gates/delays only at queue get / result put, a gate that times out lets the run '
+              'continue freely (recorded); the OS scheduler decides the rest - the arrival log, not wall clock, decides the verdict. Engineering clauses on private '
+              'per-tree lists are the anchored state of the property and carry their own keys.')
 LEVEL = "fault_enumeration"
-TECHNIQUE = ("runtime monitoring with schedule/fault injection: hooked TreeArray merges under enumerated partitions and arrival orders; "
-             "real multi-process SumTrees runs under injected delays/spurious queue.Empty, offline check of the recorded arrival log against the serial run")
-RULE = ("library: (sample, partition incl. empty parts, merge order, operator, explicit/implicit rooting); sumtrees: (files, workers, "
-        "rooting option, schedule vector of per-worker pre/post delays and spurious-empty faults). non-trivial = >= 2 non-empty parts or an "
-        "empty part merged after a non-empty one; distinct = distinct (partition sizes, arrival order, operator, rooting) resp. distinct "
-        "(files-per-worker, arrival order) signature actually observed in the arrival log")
+TECHNIQUE = ("runtime monitoring with schedule/fault injection: hooked TreeArray merges inside generated histories (merges, tree-level operations, warm queries) "
+             "with a lock-step model of the expected tree sequence; real multi-process SumTrees runs with the get/put order of the sentinel protocol enumerated "
+             "by turn-taking gates, offline check of the recorded arrival log against the serial run")
+RULE = ("library: (sample, settings, query vector, partition incl. empty parts, construction routes, history = arrival order x operator(s) x tree-level "
+        "operations x warm queries, explicit/implicit rooting); sumtrees: (files, option vector, worker count, rooting option, schedule = served-get order + "
+        "put order | delay vector | spurious-empty fault). non-trivial = >= 2 non-empty parts, an empty part merged after a non-empty one, a tree added "
+        "after a merge, or >= 2 trees inserted; distinct = distinct (history log, partition sizes, rootings, age mode) resp. distinct (files-per-worker, "
+        "arrival order, options) signature actually observed in the arrival log")
 REACH = ["treecollectionmodel:TreeArray.update", "treecollectionmodel:TreeArray.extend", "treecollectionmodel:TreeArray.__iadd__",
          "treecollectionmodel:TreeArray.__add__", "treecollectionmodel:SplitDistribution.update", "treecollectionmodel:TreeArray.add_tree",
-         "treecollectionmodel:TreeArray.insert", "treecollectionmodel:TreeArray.validate_rooting"]
-MIN_EVENTS = {"merge-compared-with-serial": (300, 3000), "source-unchanged-checked": (500, 5000), "alignment-invariant-checked": (2000, 20000),
-              "empty-after-nonempty-merge": (50, 1000), "sumtrees-parallel-run-compared": (20, 200),
-              "sumtrees-idle-worker-arrived-after-nonempty": (3, 20), "sumtrees-idle-worker-arrived-first": (3, 20)}
+         "treecollectionmodel:TreeArray.insert", "treecollectionmodel:TreeArray.append", "treecollectionmodel:TreeArray.add_trees",
+         "treecollectionmodel:TreeArray.from_tree_list", "treecollectionmodel:TreeList.as_tree_array", "treecollectionmodel:TreeArray.read_from_files",
+         "treecollectionmodel:TreeArray.validate_rooting", "treecollectionmodel:TreeArray.restore_tree",
+         "treecollectionmodel:TreeArray.get_split_bitmask_and_edge_tuple", "treecollectionmodel:TreeArray.consensus_tree",
+         "treecollectionmodel:TreeArray.calculate_log_product_of_split_supports", "treecollectionmodel:TreeArray.maximum_product_of_split_support_tree",
+         "treecollectionmodel:SplitDistribution.calc_freqs"]
+MIN_EVENTS = {"merge-compared-with-serial": (1300, 10000), "source-unchanged-checked": (5000, 38000), "alignment-invariant-checked": (14000, 180000),
+              "add_tree-row-checked": (8500, 140000), "empty-after-nonempty-merge": (1100, 7500), "per-tree-row-compared": (8000, 190000),
+              "restored-topology-compared-with-source-spec": (8000, 190000), "history-compared:warm": (1100, 8500),
+              "history-compared:tree-added-after-merge": (650, 5000), "history-compared:mixed-operators": (400, 3200), "history-compared:nested": (300, 2500),
+              "part-on-the-left-of-plus": (330, 2600), "plus-result-identity-checked": (1800, 14000), "consensus-compared-below-half": (450, 3300),
+              "mcct-edge-lengths-compared": (240, 1900), "part-merged-twice": (70, 550), "split-distribution-merge-compared": (50, 320),
+              "part-built:add_trees": (180, 1100), "part-built:from_tree_list": (180, 1100), "part-built:as_tree_array": (180, 1100), "part-built:read": (130, 900),
+              "part-built:insert": (180, 1100), "part-built:bipartitions-updated": (180, 1100),
+              "sumtrees-parallel-run-compared": (20, 60), "sumtrees-idle-worker-arrived-after-nonempty": (12, 60), "sumtrees-idle-worker-arrived-first": (5, 20),
+              "sumtrees-enumerated-schedule-realised": (6, 25), "sumtrees-compared:burnin": (3, 15), "sumtrees-compared:burnin-swallows-a-source": (1, 8),
+              "sumtrees-compared:weighted": (2, 15), "sumtrees-compared:node-ages": (2, 7), "sumtrees-compared:logging-reader": (2, 9),
+              "sumtrees-compared:newick": (1, 10), "sumtrees-compared:source-without-trees": (1, 4), "sumtrees-maximum-credibility-tree-compared": (3, 18)}
 ASSUMPTIONS = ["the serial summary of the same trees is the baseline (its exactness is C05)",
-               "delays are injected only before queue.get and before results_queue.put; the spurious queue.Empty models the documented feeder-thread latency of multiprocessing.Queue",
-               "float summaries compared to 1e-9 relative (summation order differs between partitions)"]
+               "schedules are imposed only at work_queue.get and results_queue.put (turn-taking with a time-out that releases the run, or delays); the spurious "
+               "queue.Empty is raised only for non-blocking / timed polls, where multiprocessing.Queue documents it",
+               "float summaries compared to 1e-9 relative (summation order differs between partitions); workloads are dyadic so that ties are exact",
+               "clauses on the private per-tree lists, on size additivity, on '+' returning a new object and on sources staying unchanged are engineering "
+               "clauses derived from the statement (aligned lists are the anchored state; a partial result may be merged more than once)"]
 CASE_TIMEOUT = 240
 SHARDS = {"quick": 16, "thorough": 16}
 
-
-def close(a, b):
-    if a == b:
-        return True
-    if a is None or b is None:
-        return False
-    return abs(a - b) <= 1e-9 * max(1.0, abs(a), abs(b))
-
-
-# ------------------------------------------------------------------------------------------------
-def sample_specs(rng, ntax, ntrees, ultrametric):
-    base = gen.random_spec(rng, ntax, p_poly=0.1)
-    out = []
-    cur = base
-    for i in range(ntrees):
-        if rng.random() < 0.5:
-            cur = gen.nni(cur, rng)
-        if rng.random() < 0.1:
-            cur = base
-        s = ref.copy(cur)
-        if ultrametric:
-            gen.ultrametric_lengths(s, rng, dyadic=True)
-        else:
-            gen.decorate_lengths(s, rng, rng.choice(["dyadic", "ints", "unit"]))
-        out.append(s)
-    return out
+PAR_CONFS = [(2, ["-m", "3"]), (3, ["-m", "2"]), (3, ["-m", "5"]), (2, ["-m", "2"]), (4, ["-m", "3"]), (3, ["-m", "3"]), (4, ["-m", "6"])]
+IDLE_CONFS = [(2, ["-m", "3"]), (3, ["-m", "5"]), (2, ["-m", "4"]), (4, ["-m", "6"])]
+OTHER_CONFS = [(1, ["-m", "2"]), (2, ["-m", "1"]), (3, ["-M"]), (3, ["-m", "1"]), (2, ["-M"]), (4, ["-M"])]
+ROOTINGS = [("--rooted", "R"), ("--unrooted", "U"), (None, "R"), (None, "U"), (None, ""), ("--rooted", ""), ("--unrooted", "R")]
+PRESETS = [{}, {"burnin": 1}, {"weighted": True}, {"ages": "ultra"}, {"burnin": "swallow"}, {"quiet": False}, {"fmt": "newick"},
+           {"ages": "tipdates"}, {"empty": "last"}, {"edges": "keep", "target": "mcct"}, {"minfreq": 0.25}, {"edges": "median-length"},
+           {"burnin": 1, "weighted": True, "quiet": False}, {"empty": "middle", "burnin": 1}, {"minfreq": 1.0, "pct": True}, {"edges": "support", "fmt": "newick"},
+           {"ages": "ultra", "edges": "median-age", "target": "mcct"}, {"empty": "first"}, {"edges": "clear", "target": "msct"}, {"minfreq": 0.34, "weighted": True}]
 
 
-def canonical_summary(ctx, ta, where, det):
-    """summary of a TreeArray through its public queries; None + violation when a query fails."""
-    sd = ta.split_distribution
-    out = {}
-    try:
-        out["n"] = len(ta)
-        out["counts"] = dict(sd.split_counts)
-        out["freqs"] = dict((s, sd[s]) for s in sd.split_counts)
-        out["lengths"] = dict((s, sorted(v)) for s, v in sd.split_edge_lengths.items() if s in sd.split_counts and v)
-        out["ages"] = dict((s, sorted(v)) for s, v in sd.split_node_ages.items() if s in sd.split_counts and v)
-        if len(ta) == 0:
-            return out
-        ct = ta.consensus_tree(min_freq=0.5)
-        cs = bridge.extract(ct)
-        rooted = bool(ta.is_rooted_trees)
-        out["consensus"] = ref.topology(cs, rooted)
-        sup = {}
-        cl = dict((id(n), c) for n, c in ref.clades(cs))
-        spec, nodes = bridge.extract(ct, with_nodes=True)
-        cl = dict((id(n), c) for n, c in ref.clades(spec))
-        for s, nd in nodes:
-            a = nd.annotations.get_value("support", None)
-            if a is not None:
-                key = cl[id(s)] if rooted else ref.usplit(cl[id(s)], cl[id(spec)])
-                sup[key] = float(a)
-        out["supports"] = sup
-        out["consensus_rooting"] = ct.is_rooted
-        scores, idx = ta.calculate_log_product_of_split_supports()
-        out["mcc_score"] = max(scores)
-        out["scores_sorted"] = sorted(scores)
-        best = [i for i, x in enumerate(scores) if close(x, out["mcc_score"])]
-        tops = set(frozenset(ta._tree_split_bitmasks[i]) for i in best)
-        out["mcct_unique"] = len(tops) == 1
-        mt = ta.maximum_product_of_split_support_tree()
-        out["mcct"] = ref.topology(bridge.extract(mt), rooted)
-        s2, idx2 = ta.calculate_sum_of_split_supports()
-        out["msc_score"] = max(s2)
-        # per-tree queries
-        for i in range(len(ta)):
-            t = ta[i] if False else ta.restore_tree(i)
-        out["topologies"] = len(ta.topologies())
-        out["bef"] = sorted(ta.bipartition_encoding_frequencies().values())
-    except core.CaseTimeout:
-        raise
-    except Exception as e:
-        ctx.violation("%s|query-fails-after-merge|%s" % (where, core.exc_key(e)),
-                      "per-tree / summary query failed: %s" % core.exc_brief(e), det)
-        return None
-    return out
-
-
-def compare_summaries(ctx, a, b, where, det):
-    """a = serial baseline, b = merged.  First difference is the witness."""
-    def diff(clause, msg):
-        ctx.violation("%s|summary-differs|%s" % (where, clause), msg, det)
-        return False
-    if a["n"] != b["n"]:
-        return diff("tree-count", "%d trees vs %d" % (a["n"], b["n"]))
-    if set(a["counts"]) != set(b["counts"]):
-        return diff("split-set", "different sets of counted splits")
-    for s in a["counts"]:
-        if not close(a["counts"][s], b["counts"][s]):
-            return diff("split-counts", "count of split %s: %r vs %r" % (bin(s), a["counts"][s], b["counts"][s]))
-        if not close(a["freqs"][s], b["freqs"][s]):
-            return diff("split-frequencies", "frequency of split %s: %r vs %r" % (bin(s), a["freqs"][s], b["freqs"][s]))
-    for k in ("lengths", "ages"):
-        if set(a[k]) != set(b[k]):
-            return diff(k + "-keys", "different splits carry %s" % k)
-        for s in a[k]:
-            if len(a[k][s]) != len(b[k][s]) or any(not close(x, y) for x, y in zip(a[k][s], b[k][s])):
-                return diff("split-" + k, "multiset of %s of split %s differs" % (k, bin(s)))
-    if a["n"] == 0:
-        return True
-    if a["consensus"] != b["consensus"]:
-        return diff("consensus-topology", "consensus trees differ")
-    if a["consensus_rooting"] != b["consensus_rooting"]:
-        return diff("consensus-rooting", "consensus rooting %r vs %r" % (a["consensus_rooting"], b["consensus_rooting"]))
-    if set(a["supports"]) != set(b["supports"]) or any(not close(a["supports"][k], b["supports"][k]) for k in a["supports"]):
-        return diff("consensus-supports", "support values differ")
-    if not close(a["mcc_score"], b["mcc_score"]) or not close(a["msc_score"], b["msc_score"]):
-        return diff("max-credibility-score", "%r vs %r" % (a["mcc_score"], b["mcc_score"]))
-    if len(a["scores_sorted"]) != len(b["scores_sorted"]) or any(not close(x, y) for x, y in zip(a["scores_sorted"], b["scores_sorted"])):
-        return diff("per-tree-scores", "multisets of per-tree scores differ")
-    if a["mcct_unique"] and b["mcct_unique"] and a["mcct"] != b["mcct"]:
-        return diff("mcct-topology", "maximum credibility topology differs although the maximiser is unique")
-    if a["topologies"] != b["topologies"] or len(a["bef"]) != len(b["bef"]) or any(not close(x, y) for x, y in zip(a["bef"], b["bef"])):
-        return diff("topology-frequencies", "topology frequency tables differ")
-    return True
-
-
-def install_alignment_monitor(ctx, hooks):
-    import dendropy
-
-    def check(ta, tag, det=None):
-        ctx.ev("alignment-invariant-checked")
-        n = len(ta._tree_split_bitmasks)
-        lens = (len(ta._tree_edge_lengths), len(ta._tree_leafset_bitmasks), len(ta._tree_weights))
-        if any(x != n for x in lens):
-            ctx.violation("%s|per-tree-lists-misaligned" % tag,
-                          "split/edge-length/leafset/weight lists have lengths %s" % ((n,) + lens,), det)
-            return
-        sd = ta._split_distribution
-        if sd.total_trees_counted != n:
-            ctx.violation("%s|total_trees_counted-wrong" % tag, "total_trees_counted=%r for %d trees" % (sd.total_trees_counted, n), det)
-        if not close(sd.sum_of_tree_weights, sum(ta._tree_weights)):
-            ctx.violation("%s|sum_of_tree_weights-wrong" % tag, "sum_of_tree_weights=%r, weights sum to %r" % (sd.sum_of_tree_weights, sum(ta._tree_weights)), det)
-
-    def mk(tag):
-        def pre(ta, args, kw):
-            other = args[0] if args else None
-            return {"len": len(ta), "rooting": ta._is_rooted_trees,
-                    "olen": len(other) if isinstance(other, dendropy.TreeArray) else None,
-                    "orooting": getattr(other, "_is_rooted_trees", None)}
-
-        def post(snap, ta, args, kw, result, exc):
-            det = {"op": tag, "before": snap}
-            if exc is not None:
-                return
-            if snap["olen"] == 0 and snap["len"] > 0:
-                ctx.ev("empty-after-nonempty-merge")
-            target = result if tag == "TreeArray.__add__" else ta
-            check(target, tag, det)
-            if snap["olen"] is not None and tag != "TreeArray.__add__" and len(ta) != snap["len"] + snap["olen"]:
-                ctx.violation("%s|size-not-additive" % tag, "%d + %d -> %d" % (snap["len"], snap["olen"], len(ta)), det)
-        return pre, post
-    for name in ("update", "extend", "__iadd__", "__add__"):
-        pre, post = mk("TreeArray." + name)
-        hooks.install(dendropy.TreeArray, name, pre=pre, post=post)
-
-    def post_add(snap, ta, args, kw, result, exc):
-        if exc is None:
-            check(ta, "TreeArray.add_tree")
-    hooks.install(dendropy.TreeArray, "add_tree", post=post_add)
-
-
-def new_array(ns, rooted, explicit, cfg):
-    import dendropy
-    return dendropy.TreeArray(taxon_namespace=ns, is_rooted_trees=(rooted if explicit else None),
-                              ignore_edge_lengths=cfg["ignore_edge_lengths"], ignore_node_ages=cfg["ignore_node_ages"],
-                              use_tree_weights=cfg["use_tree_weights"])
-
-
-def run_library(ctx, case, rng):
-    import dendropy
-    quick = ctx.tier == "quick"
-    ntax = rng.choice([4, 5, 6, 8]) if quick else rng.choice([4, 6, 9, 14, 20])
-    ntrees = rng.choice([0, 1, 2, 3, 5, 8, 12, 20]) if quick else rng.choice([0, 1, 2, 4, 9, 20, 45, 80])
-    rooted = rng.random() < 0.5
-    ages = rooted and rng.random() < 0.5
-    cfg = {"ignore_edge_lengths": rng.random() < 0.2, "ignore_node_ages": not ages, "use_tree_weights": rng.random() < 0.7}
-    specs = sample_specs(rng, ntax, ntrees, ages)
-    labels = sorted(ref.leaf_taxa(specs[0])) if specs else ["T%d" % i for i in range(ntax)]
-    ns = dendropy.TaxonNamespace(labels)
-    wmode = rng.choice(["none", "equal", "random", "dominant"])
-    trees = []
-    for i, s in enumerate(specs):
-        t = bridge.build_tree(s, ns, rooted)
-        if wmode == "equal":
-            t.weight = 2.0
-        elif wmode == "random":
-            t.weight = rng.randint(1, 8) / 4.0
-        elif wmode == "dominant":
-            t.weight = 50.0 if i == 0 else 0.5
-        trees.append(t)
-    det = {"ntax": ntax, "ntrees": ntrees, "rooted": rooted, "cfg": cfg, "weights": wmode}
-    with Hooks(ctx) as hooks:
-        install_alignment_monitor(ctx, hooks)
-        serial = new_array(ns, rooted, True, cfg)
-        for t in trees:
-            serial.add_tree(t)
-        base = canonical_summary(ctx, serial, "serial", det)
-        if base is None:
-            return
-        mode = case["mode"]
-        if mode == "insert":
-            ta = new_array(ns, rooted, rng.random() < 0.5, cfg)
-            order = list(range(len(trees)))
-            rng.shuffle(order)
-            for i in order:
-                r = rng.random()
-                if r < 0.4:
-                    ta.insert(rng.randint(0, len(ta)), trees[i])
-                elif r < 0.7:
-                    ta.append(trees[i])
-                else:
-                    ta.add_tree(trees[i])
-            d2 = dict(det, mode="insert/append/add in shuffled order")
-            got = canonical_summary(ctx, ta, "insert", d2)
-            if got is not None:
-                ctx.ev("merge-compared-with-serial")
-                compare_summaries(ctx, base, got, "insert", d2)
-                if ntrees >= 2:
-                    ctx.nontrivial(("insert", ntax, ntrees, rooted, tuple(order)))
-            return
-        # ---- partition + merge
-        k = rng.randint(1, 6)
-        sizes = [0] * k
-        assign = []
-        force_empty = rng.random() < 0.5 and k >= 2
-        for i in range(len(trees)):
-            j = rng.randrange(k - 1 if force_empty else k)
-            assign.append(j)
-            sizes[j] += 1
-        explicit = [rng.random() < 0.5 for _ in range(k)]
-        opname = case["op"]
-        orders = list(itertools.permutations(range(k))) if k <= 3 else [tuple(rng.sample(range(k), k)) for _ in range(4)]
-        if k <= 3 and len(orders) > 4 and quick:
-            orders = rng.sample(orders, 4)
-        # the sub-collections are built ONCE and re-used for every arrival order: merging must not consume or
-        # change its source, so the same partial results can be merged again elsewhere
-        parts = [new_array(ns, rooted, explicit[j], cfg) for j in range(k)]
-        for i, t in enumerate(trees):
-            parts[assign[i]].add_tree(t)
-
-        def part_state(ta):
-            sd = ta.split_distribution
-            return (len(ta), dict(sd.split_counts), dict((s, sorted(v)) for s, v in sd.split_edge_lengths.items() if v),
-                    dict((s, sorted(v)) for s, v in sd.split_node_ages.items() if v), list(ta._tree_weights), ta._is_rooted_trees)
-        before_parts = [part_state(p) for p in parts]
-        for order in orders:
-            master_explicit = rng.random() < 0.5
-            master = new_array(ns, rooted, master_explicit, cfg)
-            d2 = dict(det, op=opname, part_sizes=[sizes[j] for j in order], explicit_rooting=[explicit[j] for j in order],
-                      master_explicit_rooting=master_explicit)
-            failed = False
-            for j in order:
-                try:
-                    if opname == "update":
-                        master.update(parts[j])
-                    elif opname == "extend":
-                        master.extend(parts[j])
-                    elif opname == "iadd":
-                        master += parts[j]
-                    else:
-                        master = master + parts[j]
-                except core.CaseTimeout:
-                    raise
-                except Exception as e:
-                    ctx.violation("%s|merge-of-compatible-collections-raises|%s" % (opname, core.exc_key(e)),
-                                  "merging a part of %d trees (rooting %r) into a collection of %d (rooting %r) raised %s" % (
-                                      len(parts[j]), parts[j]._is_rooted_trees, len(master), master._is_rooted_trees, core.exc_brief(e)), d2)
-                    failed = True
-                    break
-            if failed:
-                continue
-            got = canonical_summary(ctx, master, opname, d2)
-            if got is None:
-                continue
-            ctx.ev("merge-compared-with-serial")
-            compare_summaries(ctx, base, got, opname, d2)
-            for j in range(k):
-                ctx.ev("source-unchanged-checked")
-                if part_state(parts[j]) != before_parts[j]:
-                    ctx.violation("%s|merge-changes-its-source-collection" % opname,
-                                  "a sub-collection of %d trees differs after it was merged into another collection" % sizes[j], d2)
-                    before_parts[j] = part_state(parts[j])
-            nonempty = [sizes[j] for j in order if sizes[j]]
-            seen_nonempty = False
-            empty_after = False
-            for j in order:
-                if sizes[j]:
-                    seen_nonempty = True
-                elif seen_nonempty:
-                    empty_after = True
-            if len(nonempty) >= 2 or empty_after:
-                ctx.nontrivial(("merge", opname, tuple(sizes[j] for j in order), tuple(explicit[j] for j in order), rooted, master_explicit))
-        if case["i"] < 2:
-            ctx.sample({"kind": "library", "op": opname, "ntrees": ntrees, "part_sizes": sizes, "explicit_rooting": explicit,
-                        "rooted": rooted, "orders": [list(o) for o in orders[:3]], "first_tree": ref.to_newick(specs[0]) if specs else None})
-
-
-# ------------------------------------------------------------------------------------------------
-def write_tree_file(path, specs, token, rng, weights=False):
-    """NEXUS trees file written by the harness (not by the library's writer)."""
-    def nwk(n):
-        t = ""
-        if n[3]:
-            t = "(" + ",".join(nwk(c) for c in n[3]) + ")"
-        if n[0] is not None:
-            t += n[0]
-        if n[2] is not None:
-            t += ":%r" % float(n[2])
-        return t
-    with open(path, "w") as f:
-        f.write("#NEXUS\nbegin trees;\n")
-        for i, s in enumerate(specs):
-            tok = {"R": "[&R] ", "U": "[&U] ", "": ""}[token]
-            f.write("tree t%d = %s%s;\n" % (i, tok, nwk(s)))
-        f.write("end;\n")
-
-
-def parse_bip_table(path):
-    rows = {}
-    with open(path) as f:
-        hdr = f.readline().rstrip("\n").split("\t")
-        for line in f:
-            p = line.rstrip("\n").split("\t")
-            r = dict(zip(hdr, p))
-            vals = []
-            for k in hdr:
-                if k in ("bipartitionGroup", "bipartitionId", "bipartitionBitmask", "bipartitionLeafset", "newick"):
-                    continue
-                try:
-                    vals.append((k, float(r[k])))
-                except ValueError:
-                    vals.append((k, r[k]))
-            rows[(r["bipartitionBitmask"], r["bipartitionLeafset"])] = vals
-    return rows
-
-
-def summary_tree_sig(path, rooted_hint):
-    import dendropy
-    tl = dendropy.TreeList.get(path=path, schema="nexus", extract_comment_metadata=True)
-    out = []
-    for t in tl:
-        spec, nodes = bridge.extract(t, with_nodes=True)
-        rooted = bool(t.is_rooted)
-        cl = dict((id(n), c) for n, c in ref.clades(spec))
-        sup = {}
-        lens = {}
-        for s, nd in nodes:
-            key = cl[id(s)] if rooted else ref.usplit(cl[id(s)], cl[id(spec)])
-            a = nd.annotations.get_value("support", None)
-            if a is not None:
-                sup[key] = float(a)
-            if s[2] is not None:
-                lens[key] = lens.get(key, 0) + s[2]
-        out.append((rooted, ref.topology(spec, rooted), sup, lens))
-    return out
-
-
-SCHEDULES = [
-    # name, per-worker schedule builder(nworkers) -> dict
-    ("natural", lambda n, d: {}),
-    ("first-worker-late-start", lambda n, d: {"Process-1": {"pre": 3 * d}}),
-    ("all-but-last-late-start", lambda n, d: dict(("Process-%d" % (i + 1), {"pre": 3 * d}) for i in range(n - 1))),
-    ("last-worker-late-start", lambda n, d: {"Process-%d" % n: {"pre": 3 * d}}),
-    ("idle-worker-reports-last", lambda n, d: dict([("Process-%d" % (i + 1), {}) for i in range(n - 1)] + [("Process-%d" % n, {"pre": 2 * d, "post": 4 * d})])),
-    ("idle-worker-reports-first", lambda n, d: dict([("Process-1", {"spurious_empty": 1})] + [("Process-%d" % (i + 2), {"pre": d, "post": 3 * d}) for i in range(n - 1)])),
-    ("busy-worker-reports-late", lambda n, d: {"Process-1": {"post": 4 * d}, "Process-2": {"pre": d}}),
-    ("spurious-empty-on-first-worker", lambda n, d: {"Process-1": {"spurious_empty": 1}}),
-    ("spurious-empty-on-all-but-last", lambda n, d: dict(("Process-%d" % (i + 1), {"spurious_empty": 1}) for i in range(n - 1))),
-    ("spurious-empty-on-every-worker", lambda n, d: dict(("Process-%d" % (i + 1), {"spurious_empty": 1}) for i in range(n))),
-    ("staggered", lambda n, d: dict(("Process-%d" % (i + 1), {"pre": i * d, "post": (n - i) * d}) for i in range(n))),
-    ("reverse-staggered", lambda n, d: dict(("Process-%d" % (i + 1), {"pre": (n - i) * d, "post": i * d}) for i in range(n))),
-]
-
-
-def run_sumtrees(ctx, case, rng):
-    quick = ctx.tier == "quick"
-    nfiles = case["nfiles"]
-    nworkers = case["nworkers"]
-    ntax = rng.choice([5, 6, 8])
-    rooted_opt = case["rooting"]        # "--rooted" | "--unrooted" | None
-    token = case["token"]               # "R" | "U" | ""
-    if rooted_opt is None and token == "":
-        eff_rooted = False
-    elif rooted_opt is not None:
-        eff_rooted = rooted_opt == "--rooted"
-    else:
-        eff_rooted = token == "R"
-    base_names = ["T%d" % i for i in range(ntax)]
-    tmp = tempfile.mkdtemp(prefix="vf-c06-")
-    try:
-        files = []
-        total = 0
-        for k in range(nfiles):
-            n = rng.choice([1, 2, 4, 7])
-            specs = sample_specs(rng, ntax, n, False)
-            # same taxa everywhere
-            for s in specs:
-                pass
-            p = os.path.join(tmp, "f%d.nex" % k)
-            write_tree_file(p, specs, token, rng)
-            files.append(p)
-            total += n
-        common = ["-q", "-r"]
-        if rooted_opt:
-            common.append(rooted_opt)
-        if case.get("target"):
-            common += ["-s", case["target"]]
-        env = dict(os.environ)
-        env["PYTHONPATH"] = core.VERIF
-        env["VF_REPO_SRC"] = core.REPO_SRC
-
-        def run(tag, extra, sched):
-            log = os.path.join(tmp, tag + ".log.json")
-            sp = os.path.join(tmp, tag + ".sched.json")
-            with open(sp, "w") as f:
-                json.dump(sched, f)
-            args = [sys.executable, "-B", "-m", "vf.props._c06_driver", log, sp, "--"] + common + extra + \
-                   ["-x", os.path.join(tmp, tag), "-o", os.path.join(tmp, tag + ".tre")] + files
-            try:
-                r = subprocess.run(args, cwd=tmp, env=env, stdout=subprocess.PIPE, stderr=subprocess.STDOUT, timeout=90)
-            except subprocess.TimeoutExpired:
-                return None, "timeout"
-            if not os.path.exists(log):
-                return None, "driver died: %s" % r.stdout.decode("utf-8", "replace")[-500:]
-            with open(log) as f:
-                return json.load(f), r.stdout.decode("utf-8", "replace")[-800:]
-        ser, serout = run("ser", [], {})
-        if ser is None:
-            ctx.mark_inconclusive("serial sumtrees run: %s" % serout)
-            return
-        if ser["exit"] != 0:
-            ctx.violation("sumtrees|serial-run-fails", "serial run failed: %s" % (ser.get("exception") or serout), {"case": case})
-            return
-        ser_table = parse_bip_table(os.path.join(tmp, "ser.bipartitions.tsv"))
-        ser_tree = summary_tree_sig(os.path.join(tmp, "ser.tre"), eff_rooted)
-        delay = 0.12 if quick else 0.2
-        sname, sfn = SCHEDULES[case["sched"] % len(SCHEDULES)]
-        sched = sfn(nworkers, delay)
-        par, parout = run("par", ["-m", str(nworkers)], sched)
-        det = {"files": nfiles, "trees_total": total, "workers": nworkers, "rooting_option": rooted_opt, "token": token,
-               "schedule": sname, "sched": sched}
-        if par is None:
-            if parout == "timeout":
-                # a parallel run that never finishes: workers retired / parent waits forever.  Wall clock is not a verdict.
-                ctx.mark_inconclusive("parallel sumtrees run exceeded 90 s (schedule %s)" % sname)
-            else:
-                ctx.mark_inconclusive("parallel sumtrees run: %s" % parout)
-            return
-        arr = par["arrivals"]
-        det["arrival_log"] = arr
-        sig = (tuple(sorted((a["worker"] or "?", len(a["files"] or [])) for a in arr)),
-               tuple((a["worker"], a["n_trees"]) for a in arr))
-        ctx.state(("sched", nfiles, nworkers, sig))
-        if par["exit"] != 0:
-            raised = [a for a in arr if a.get("raised")]
-            if raised:
-                a = raised[0]
-                kind = a["raised"].split(":")[0]
-                empty_after = a["n_trees"] == 0 and a["master_len_before"] > 0
-                ctx.violation("sumtrees|merge-raises|%s|%s" % (kind, "empty-partial-after-nonempty" if empty_after else "other"),
-                              "collation of worker results raised %s" % a["raised"], det)
-            else:
-                ctx.violation("sumtrees|parallel-run-fails", "parallel run failed: %s" % (par.get("exception") or parout), det)
-            return
-        # ---- offline checks over the arrival log
-        if nfiles == 1:
-            # SumTrees documents that a single source is always analysed serially: no partial results to collate
-            arr = []
-            ctx.note("single-source-run-is-serial-by-design")
-        else:
-            ctx.ev("sumtrees-arrival-log-checked")
-        seen_nonempty = False
-        for i, a in enumerate(arr):
-            if a["n_trees"] == 0 and seen_nonempty:
-                ctx.ev("sumtrees-idle-worker-arrived-after-nonempty")
-            if a["n_trees"] == 0 and not seen_nonempty and i == 0 and len(arr) > 1:
-                ctx.ev("sumtrees-idle-worker-arrived-first")
-            if a["n_trees"] > 0:
-                seen_nonempty = True
-        if nfiles > 1 and len(arr) != nworkers:
-            ctx.violation("sumtrees|not-every-worker-reported", "%d arrivals for %d workers" % (len(arr), nworkers), det)
-        read = [f for a in arr for f in (a["files"] or [])]
-        if nfiles > 1 and sorted(read) != sorted(files):
-            lost = sorted(set(files) - set(read))
-            dup = sorted(f for f in set(read) if read.count(f) > 1)
-            ctx.violation("sumtrees|files-not-read-exactly-once|%s" % ("lost" if lost else "duplicated"),
-                          "files lost: %s, read twice: %s" % ([os.path.basename(x) for x in lost], [os.path.basename(x) for x in dup]), det)
-            return
-        if nfiles > 1 and sum(a["n_trees"] for a in arr) != total:
-            ctx.violation("sumtrees|trees-lost-or-duplicated", "partial results hold %d trees, sources hold %d" % (sum(a["n_trees"] for a in arr), total), det)
-            return
-        # ---- summary equality
-        par_table = parse_bip_table(os.path.join(tmp, "par.bipartitions.tsv"))
-        par_tree = summary_tree_sig(os.path.join(tmp, "par.tre"), eff_rooted)
-        ctx.ev("sumtrees-parallel-run-compared")
-        ctx.nontrivial(("sumtrees", nfiles, nworkers, rooted_opt, token, sig))
-        if set(ser_table) != set(par_table):
-            ctx.violation("sumtrees|summary-differs|bipartition-set", "serial and parallel runs report different bipartitions", det)
-            return
-        for k in ser_table:
-            for (name, x), (_, y) in zip(ser_table[k], par_table[k]):
-                same = (x == y) if isinstance(x, str) or isinstance(y, str) else close(x, y)
-                if not same and name.startswith("edgeLengthHpd"):
-                    continue
-                if not same:
-                    ctx.violation("sumtrees|summary-differs|bipartition-table|%s" % name,
-                                  "bipartition %s: %s serial %r parallel %r" % (k[0], name, x, y), det)
-                    return
-        if len(ser_tree) != len(par_tree):
-            ctx.violation("sumtrees|summary-differs|number-of-summary-trees", "", det)
-            return
-        for (r1, top1, sup1, len1), (r2, top2, sup2, len2) in zip(ser_tree, par_tree):
-            if r1 != r2:
-                ctx.violation("sumtrees|summary-differs|rooting", "summary tree rooting differs", det)
-            elif top1 != top2:
-                ctx.violation("sumtrees|summary-differs|topology", "summary tree topology differs", det)
-            elif set(sup1) != set(sup2) or any(not close(sup1[k], sup2[k]) for k in sup1):
-                ctx.violation("sumtrees|summary-differs|supports", "support values differ", det)
-            elif set(len1) != set(len2) or any(not close(len1[k], len2[k]) for k in len1):
-                ctx.violation("sumtrees|summary-differs|edge-lengths", "summary edge lengths differ", det)
-        if case["i"] < 3:
-            ctx.sample({"kind": "sumtrees", "files": nfiles, "trees": total, "workers": nworkers, "rooting_option": rooted_opt,
-                        "token": token, "schedule": sname, "arrival_log": [(a["worker"], a["n_trees"], [os.path.basename(f) for f in a["files"] or []]) for a in arr]})
-    finally:
-        shutil.rmtree(tmp, ignore_errors=True)
+def _st_case(j, seed, rng, nfiles, mp, sched):
+    opts = dict(PRESETS[(j + seed) % len(PRESETS)])
+    target = opts.pop("target", None) or rng.choice([None, None, "mcct", "consensus"])
+    for k, v in (("burnin", 1), ("weighted", True), ("quiet", False), ("fmt", "newick")):
+        if k not in opts and rng.random() < 0.15:
+            opts[k] = v
+    ro, tok = ROOTINGS[(j + seed) % len(ROOTINGS)]
+    if opts.get("ages"):
+        ro, tok = rng.choice([("--rooted", "R"), (None, "R"), ("--rooted", "")])
+    return {"kind": "sumtrees", "nfiles": nfiles, "mp": mp, "rooting": ro, "token": tok, "sched": sched, "target": target, "opts": opts, "i": j, "seed": seed}
 
 
 def cases(tier, seed):
     quick = tier == "quick"
-    # directed: the confirmed mechanisms first
     i = 0
-    for op in ("update", "extend", "iadd", "add"):
-        for k in range(200 if quick else 800):
-            yield {"kind": "library", "mode": "merge", "op": op, "i": i, "seed": seed}
+    for style, n in (("update", 170), ("extend", 170), ("iadd", 170), ("add", 220), ("mixed", 440), ("insert", 180)):
+        for k in range(n if quick else 6 * n):
+            yield {"kind": "library", "style": style, "i": i, "seed": seed}
             i += 1
-    for k in range(300 if quick else 2000):
-        yield {"kind": "library", "mode": "insert", "op": "-", "i": i, "seed": seed}
-        i += 1
-    # sumtrees: fixed dozen of schedules x a few configurations
+    rng = random.Random("c06-sumtrees/%s" % seed)
     j = 0
-    confs = []
-    for sched in range(len(SCHEDULES)):
-        for (nfiles, nworkers) in ((2, 3), (1, 2), (3, 2), (3, 5)) if quick else ((1, 2), (2, 2), (2, 3), (3, 2), (3, 4), (4, 3), (4, 6), (1, 4)):
-            confs.append((sched, nfiles, nworkers))
-    rng = random.Random(seed)
-    opts = [("--rooted", "R"), ("--unrooted", "U"), (None, "R"), (None, "U"), (None, ""), ("--rooted", ""), ("--unrooted", "R")]
-    for n, (sched, nfiles, nworkers) in enumerate(confs):
-        if quick and n % 2 != seed % 2 and SCHEDULES[sched][0] not in ("idle-worker-reports-last", "idle-worker-reports-first",
-                                                                        "spurious-empty-on-every-worker"):
-            continue
-        ro, tok = opts[(n + seed) % len(opts)]
-        yield {"kind": "sumtrees", "nfiles": nfiles, "nworkers": nworkers, "rooting": ro, "token": tok, "sched": sched,
-               "target": rng.choice([None, None, "mcct", "consensus"]), "i": j, "seed": seed}
+    for n, sched in enumerate(SCHEDULES):
+        confs = IDLE_CONFS if "idle" in sched else PAR_CONFS
+        for c in range(2 if quick else 8):
+            nfiles, mp = confs[(n + c + seed) % len(confs)]
+            yield _st_case(j, seed, rng, nfiles, mp, sched)
+            j += 1
+    for c, (nfiles, mp) in enumerate(OTHER_CONFS):
+        yield _st_case(j, seed, rng, nfiles, mp, ["natural", "spread/reverse-arrival", "random-assignment/random-arrival"][c % 3])
         j += 1
     if not quick:
-        for k in range(120):
-            yield {"kind": "sumtrees", "nfiles": rng.randint(1, 4), "nworkers": rng.randint(2, 6), "rooting": rng.choice(opts)[0],
-                   "token": rng.choice(["R", "U", ""]), "sched": 0, "target": None, "i": j, "seed": seed}
+        for k in range(60):
+            nfiles = rng.randint(1, 4)
+            mp = rng.choice([["-m", str(rng.randint(1, 6))], ["-m", str(rng.randint(2, 6))], ["-M"]])
+            yield _st_case(j, seed, rng, nfiles, mp, rng.choice(["natural", "natural", "random-assignment/random-arrival"]))
             j += 1
 
 
